@@ -15,7 +15,7 @@ use serde::{Deserialize, Serialize};
 use serde_json::{json, Value};
 use std::collections::{BTreeMap, HashSet};
 
-pub const RULE: &str = "(a) move/undo histories (special-move biased, up to 120 ops) from set-up and reachable seeds: after every apply and undo the key must equal the key of a board built from scratch (put in square order, one lose_castle_rights, one push_en_passant_target) with the same placement, rights and ep target - so any two histories ending in the same position are compared transitively; (b) direct set-up histories of put (including refused puts on occupied squares), remove (including empty squares), lose/pop castle rights and push/pop en-passant target in generated orders, compared with the from-scratch key after every operation; (c) constants read black-box from single-feature boards: 768 piece keys and 64 ep keys non-zero and pairwise distinct, 16 rights-set keys pairwise distinct, and additivity key(set-up) == XOR of its constants; (d) N draws of the build script's table generator (precompile::zobrist::write_zobrist_tables) parsed back: 768 + 64 non-zero pairwise distinct entries, 16 distinct rights entries. Non-trivial history = contains a double step and an expired ep target, a rights change, castle or en passant; distinct = hash of the op sequence.";
+pub const RULE: &str = "(a) move/undo histories (special-move biased, up to 120 ops) from set-up and reachable seeds: after every apply and undo the key must equal the key of a board built from scratch (put in square order, one lose_castle_rights, one push_en_passant_target) with the same placement, rights and ep target - so any two histories ending in the same position are compared transitively; (b) direct set-up histories of put (including refused puts on occupied squares), remove (including empty squares), lose/pop castle rights and push/pop en-passant target in generated orders, compared with the from-scratch key after every operation; (c) constants read black-box from single-feature boards: 768 piece keys and 64 ep keys non-zero and pairwise distinct (also across the two families and against the rights-set keys), 16 rights-set keys pairwise distinct, and additivity key(set-up) == XOR of its constants; (d) N draws of the build script's table generator (precompile::zobrist::write_zobrist_tables) parsed back: 768 + 64 non-zero pairwise distinct entries, 16 distinct rights entries. Non-trivial history = contains a double step and an expired ep target, a rights change, castle or en passant; distinct = hash of the op sequence.";
 
 #[derive(Clone, Debug, Serialize, Deserialize)]
 pub enum SetupOp {
@@ -209,6 +209,9 @@ fn run_constants(env: &Env, agg: &mut Stats) -> Option<Violation> {
         if k == 0 || !seen_ep.insert(k) {
             return Some(violation(name, json!({"ep": s}), Failure::new(format!("ep key constant of {} is zero or repeated", sq_name(s)))));
         }
+        if seen.contains(&k) {
+            return Some(violation(name, json!({"ep": s}), Failure::new(format!("ep key constant of {} equals a piece constant (the constants are not pairwise distinct)", sq_name(s)))));
+        }
         ep_consts.push(k);
     }
     let mut rights_consts = Vec::new();
@@ -221,6 +224,9 @@ fn run_constants(env: &Env, agg: &mut Stats) -> Option<Violation> {
         agg.eval();
         if !seen_r.insert(k) {
             return Some(violation(name, json!({"rights": r}), Failure::new(format!("two castling-rights sets share one key (set {:04b})", r))));
+        }
+        if k != 0 && (seen.contains(&k) || seen_ep.contains(&k)) {
+            return Some(violation(name, json!({"rights": r}), Failure::new(format!("the key constant of castling-rights set {:04b} equals a piece or ep constant", r))));
         }
         rights_consts.push(k);
     }
@@ -356,6 +362,10 @@ fn run_draws(env: &Env, agg: &mut Stats) -> Option<Violation> {
         }
         if !distinct(&rights) {
             return bad(format!("draw {}: castling-rights key table has a repeated entry", i));
+        }
+        let all: Vec<u64> = pieces.iter().chain(rights.iter()).chain(ep.iter()).cloned().collect();
+        if !distinct(&all) {
+            return bad(format!("draw {}: an entry is shared between the piece, castling-rights and en-passant key tables", i));
         }
         // entropy sanity: a generator that truncates values shows up as small maxima
         let maxbits = pieces.iter().map(|x| 64 - x.leading_zeros()).max().unwrap_or(0);
